@@ -125,7 +125,7 @@ Proof. exact len_CLEAN_le. Qed.
 Theorem C15_source_slices_are_the_model : forall s st n,
   run_slicefn gen_LEFT s [n] = fn_LEFT s n /\ run_slicefn gen_RIGHT s [n] = fn_RIGHT s n /\
   run_slicefn gen_MID s [st; n] = fn_MID s st n.
-Proof. intros s st n. repeat split; [exact (source_LEFT_is_model s n)|exact (source_RIGHT_is_model s n)|exact (source_MID_is_model s st n)]. Qed.
+Proof. intros s st n. exact (conj (source_LEFT_is_model s n) (conj (source_RIGHT_is_model s n) (source_MID_is_model s st n))). Qed.
 Theorem C15_source_slices_understood :
   gen_LEFT_defaults = [1] /\ gen_RIGHT_defaults = [1] /\ gen_MID_defaults = [1] /\ slices_gen_ok = true.
 Proof. exact source_defaults. Qed.
